@@ -291,14 +291,12 @@ termination_by (sizeOf ls, 0)
 end
 
 theorem c02_deqM_no_panic (env : DeqEnv) (henv : env.cfg = GenCfg.fixed) (n : Node) (fl fr : Form) (l r : Val)
-    (hfl : fl ≠ .nilPtrPtr) (hfr : fr ≠ .nilPtrPtr) (hl : WT n l = true) (hr : WT n r = true) :
+    (hl : WT n l = true) (hr : WT n r = true) :
     deqM env n fl fr l r ≠ .panic := by
   have h := deqN_np env henv l n false true "" r hl hr
+  have hnp : deqNilPtrPtr env.cfg = .f := by rw [henv]; rfl
   unfold deqM
-  cases fl <;> first | exact absurd rfl hfl | skip
-  all_goals (cases fr <;> first | exact absurd rfl hfr | skip)
-  all_goals simp only [deqArgOf]
-  all_goals first
+  cases fl <;> cases fr <;> simp only [deqArgOf, hnp] <;> first
     | (simp; done)
     | (generalize deqN env n false true "" l r = a at h ⊢
        cases a <;> first | exact absurd rfl h | simp)
